@@ -236,7 +236,7 @@ func (h *H) programCases() {
 	}
 
 	// the four signature checkers on every shape
-	rounds := h.run.N(1, 10)
+	rounds := h.run.N(1, 5)
 	for r := 0; r < rounds; r++ {
 		data := h.rng.Bytes(40)
 		for _, s := range h.progShapes(data) {
@@ -252,7 +252,7 @@ func (h *H) programCases() {
 	h.runCase(data, []byte{0x4B}, []bool{true}, []progShape{{[]byte{0x51}, []byte{}, "1-byte code under a cross-chain address (index -1 before the fix)"}})
 	w := msCode(0, 1, [][]byte{k, h.ks[1].enc}, 0, 2, 0xAE)
 	h.runCase(data, []byte{0x21}, []bool{true}, []progShape{{w[:len(w)-1], []byte{}, "truncated multisig code under a standard address (IsMultiSig index 70 of 70 before the fix)"}})
-	for r := 0; r < h.run.N(1, 6); r++ {
+	for r := 0; r < h.run.N(1, 3); r++ {
 		data := h.rng.Bytes(40)
 		shapes := h.progShapes(data)
 		for _, s := range shapes { // each shape alone under each prefix
@@ -394,7 +394,7 @@ func (h *H) txCases() {
 	}
 	scs := []sc{{n: 3, signers: []uint8{3}, validate: false}, {n: 3, signers: []uint8{255}, validate: false}, {n: 0, signers: []uint8{0}, validate: false}, {n: 3, signers: []uint8{0, 1, 2}, validate: false}, {n: 3, signers: []uint8{0, 1, 2}, validate: true},
 		{n: 3, signers: []uint8{1, 1}, validate: true}, {n: 3, signers: []uint8{1, 1}, validate: false}, {n: 3, signers: []uint8{2, 3}, validate: true}, {n: 3, signers: nil, validate: true}}
-	for i := 0; i < h.run.N(40, 1000); i++ {
+	for i := 0; i < h.run.N(40, 500); i++ {
 		n := h.rng.Intn(6)
 		var sg []uint8
 		for j := h.rng.Intn(5); j > 0; j-- {
@@ -534,7 +534,7 @@ func (h *H) txCases() {
 	}
 	for nOut := 0; nOut <= 4; nOut++ {
 		for regime := 0; regime <= 2; regime++ {
-			for rep := 0; rep < h.run.N(6, 70); rep++ {
+			for rep := 0; rep < h.run.N(6, 35); rep++ {
 				height := uint32(2000 + h.rng.Intn(1000))
 				switch regime {
 				case 0:
@@ -664,7 +664,7 @@ func (h *H) txCases() {
 	h.returnSideChainDepositCases(params, st)
 
 	// ---- ReturnDepositCoin.SpecialContextCheck: producer key = code or code[1:len-1]
-	for i := 0; i < h.run.N(40, 800); i++ {
+	for i := 0; i < h.run.N(40, 400); i++ {
 		n := h.rng.Range(1, 3)
 		var progs []*program.Program
 		var codes, known [][]byte
@@ -722,7 +722,7 @@ func (h *H) txCases() {
 	st.ActivityProducers = map[string]*state.Producer{}
 
 	// ---- CheckAttributeProgram (the guard: code of at least 23 bytes)
-	for i := 0; i < h.run.N(60, 1000); i++ {
+	for i := 0; i < h.run.N(60, 500); i++ {
 		n := h.rng.Intn(4)
 		var progs []*program.Program
 		var ps []string
